@@ -106,7 +106,7 @@ def gen_gp_case(rng, tier):
 
 
 def gen_cases(rng, tier):
-    n_s, n_p, n_g = (260, 40, 24) if tier == "quick" else (5000, 600, 200)
+    n_s, n_p, n_g = (260, 40, 24) if tier == "quick" else (3000, 400, 160)
     for _ in range(n_s):
         yield gen_searcher_case(rng, tier)
     for _ in range(n_p):
